@@ -157,7 +157,7 @@ PROPS = {
                 "`1 / x` with a primitive one of every integer and float width on owned and borrowed x (routes to inverse()); p in {100, 1..5 (emphasis), 1..150, 1..40}; "
                 "7 modes; inverse(-x) under the mirrored mode compared exactly with -inverse(x). Each result is judged exactly: sign, |R*x - 1| < (one unit of the p-th digit)*x, and R*x = 1 "
                 "whenever 1/x has at most p significant digits; and compared exactly with the model (which receives the real f64 initial guess through a hook and records non-termination as a failure).",
-        "trusted_base": TB_COMMON + ["the f64 initial guess (taken from the code through a hook)"],
+        "trusted_base": TB_COMMON + ["the initial guess is taken from the code through a hook; its model is a theorem-backed premise: main path with no assumption (C12_guess_premise), back-up path assuming only that (LN_2 * libm::exp10(-frac)) as f32 is within 2% of ln2 * 10^-frac (C12_backup_guess_premise; the harness recomputes that f32 with the same libm)"],
         "assumptions": ASSUME_COMMON,
     },
     "C13": {
